@@ -1,0 +1,36 @@
+//go:build verif
+// +build verif
+
+package proc
+
+import (
+	"github.com/polynetwork/poly/common"
+	tx "github.com/polynetwork/poly/core/types"
+)
+
+// Export shims for the verification harness (build tag verif): thin wrappers, no logic.
+
+// VerifIsValidSender runs the sender-admission gate of handleTransaction.
+func VerifIsValidSender(txn *tx.Transaction) error { return (&TxActor{}).isValidSender(txn) }
+
+// VerifUpdatePermittedAddrMap runs the permitted-address refresh of handleTransaction.
+func VerifUpdatePermittedAddrMap() error { return updatePermittedAddrMap() }
+
+// VerifResetPermitted empties the permitted-address cache (as after a process start).
+func VerifResetPermitted() {
+	lock.Lock()
+	defer lock.Unlock()
+	permittedAddrMap = make(map[common.Address]bool)
+	lastTime = 0
+}
+
+// VerifPermitted returns a copy of the permitted-address cache.
+func VerifPermitted() map[common.Address]bool {
+	lock.RLock()
+	defer lock.RUnlock()
+	out := make(map[common.Address]bool, len(permittedAddrMap))
+	for k, v := range permittedAddrMap {
+		out[k] = v
+	}
+	return out
+}
